@@ -42,7 +42,10 @@ def gen(rng):
             # which exception class a raising fn / error_fn uses (all of them are Exceptions: whatever fn raises is the outcome)
             "exc_kind": rng.randrange(6),
             # done-callbacks (some raising) somebody registered on the INTERMEDIATE futures before the next stage was chained on
-            "mid_cbs": [rng.choice([None, None, False, True]) for _ in range(n)]}
+            "mid_cbs": [rng.choice([None, None, False, True]) for _ in range(n)],
+            # a done-callback on the OUTPUT that waits for another thread which asks the same future something (done-callbacks run with no
+            # lock of the future held, so that thread returns at once)
+            "cb_joins": rng.random() < 0.3}
 
 
 def expected(p, exc_in, excs):
@@ -179,6 +182,15 @@ def execute(p, chooser):
                 cur.add_done_callback(midcb)
         out = cur
         obs["out"] = out
+        if p.get("cb_joins"):
+            def joining(f):
+                def other():
+                    f.done()
+                    f.add_done_callback(lambda _f: None)
+                    f.cancel()
+                t = det.spawn("j0", other)
+                t.join()
+            out.add_done_callback(joining)
 
         def env():
             det.switch("env")
